@@ -595,14 +595,182 @@ func (c *Ctx) classifyNormalizeReturn(v ssa.Value, depth int) []string {
 				out = append(out, "passthrough:type-switch binding "+typeString(x.Type()))
 				continue
 			}
+			if call, ok := x.Tuple.(*ssa.Call); ok && staticCallee(call) == nil && !call.Call.IsInvoke() {
+				// a function taken from the kind table: any of its entries
+				if tbl := c.kindTableOf(call.Call.Value); len(tbl) > 0 {
+					var fs []*ssa.Function
+					seenF := map[*ssa.Function]bool{}
+					for _, f := range tbl {
+						if !seenF[f] {
+							seenF[f] = true
+							fs = append(fs, f)
+						}
+					}
+					sort.Slice(fs, func(i, j int) bool { return c.fname(fs[i]) < c.fname(fs[j]) })
+					for _, f := range fs {
+						for _, ret := range returnsOf(f) {
+							if rv, ok := returnedValue(ret, x.Index); ok {
+								if isNilConst(rv) {
+									if ei := errResultIndex(f.Signature); ei >= 0 {
+										if ev, ok := returnedValue(ret, ei); ok && c.provablyNonNil(f, ev, ret.Block()) {
+											out = append(out, "nilerr")
+											continue
+										}
+									}
+									out = append(out, "nil-result:"+c.fname(f))
+									continue
+								}
+								out = append(out, c.classifyNormalizeReturn(rv, depth+1)...)
+							}
+						}
+					}
+					continue
+				}
+			}
 		}
 		if isCanonicalStatic(c, og.Type()) {
 			out = append(out, "canon:"+typeString(og.Type()))
+		} else if in, isInstr := og.(ssa.Instruction); isInstr && isFreshBytes(og) && c.kindGuarded(in, "Slice") {
+			// a []byte made here (the empty slice standing for a nil one) on the byte-slice path
+			out = append(out, "passthrough-bytes:fresh []byte under Kind() == Slice")
 		} else {
 			out = append(out, "bad:"+typeString(og.Type()))
 		}
 	}
 	return out
+}
+
+// isFreshBytes: v is a []byte allocated at this point (make([]byte, n) or a []byte{...} literal).
+func isFreshBytes(v ssa.Value) bool {
+	sl, ok := v.Type().Underlying().(*types.Slice)
+	if !ok {
+		return false
+	}
+	if b, ok := sl.Elem().Underlying().(*types.Basic); !ok || b.Kind() != types.Uint8 {
+		return false
+	}
+	switch x := v.(type) {
+	case *ssa.MakeSlice:
+		return true
+	case *ssa.Slice:
+		_, isAlloc := x.X.(*ssa.Alloc)
+		return isAlloc
+	}
+	return false
+}
+
+// kindTableOf: when v is an entry looked up in a package-level table keyed by reflect.Kind
+// (a map or an array filled with functions), the table: kind constant -> function.
+func (c *Ctx) kindTableOf(v ssa.Value) map[int64]*ssa.Function {
+	for _, og := range origins(v) {
+		var container ssa.Value
+		var keyT types.Type
+		switch x := og.(type) {
+		case *ssa.Lookup:
+			container = x.X
+			if m, ok := x.X.Type().Underlying().(*types.Map); ok {
+				keyT = m.Key()
+			}
+		case *ssa.Extract:
+			if lk, ok := x.Tuple.(*ssa.Lookup); ok && x.Index == 0 {
+				container = lk.X
+				if m, ok := lk.X.Type().Underlying().(*types.Map); ok {
+					keyT = m.Key()
+				}
+			}
+		case *ssa.UnOp:
+			if ia, ok := x.X.(*ssa.IndexAddr); ok && x.Op == token.MUL {
+				container = ia.X
+				keyT = ia.Index.Type()
+			}
+		}
+		if container == nil || keyT == nil || !namedIs(keyT, "reflect", "Kind") {
+			continue
+		}
+		var g *ssa.Global
+		for _, co := range origins(container) {
+			if u, ok := co.(*ssa.UnOp); ok && u.Op == token.MUL {
+				co = u.X
+			}
+			if gg, ok := co.(*ssa.Global); ok {
+				g = gg
+			}
+		}
+		if g == nil {
+			continue
+		}
+		tbl := map[int64]*ssa.Function{}
+		var fnOf func(v ssa.Value) *ssa.Function
+		fnOf = func(v ssa.Value) *ssa.Function {
+			switch f := v.(type) {
+			case *ssa.ChangeType:
+				return fnOf(f.X)
+			case *ssa.Function:
+				return c.declared(f)
+			case *ssa.MakeClosure:
+				if ff, ok := f.Fn.(*ssa.Function); ok {
+					return ff
+				}
+			}
+			return nil
+		}
+		for _, fn := range c.LibFuncs {
+			for _, b := range fn.Blocks {
+				for _, in := range b.Instrs {
+					st, ok := in.(*ssa.Store)
+					if !ok {
+						continue
+					}
+					if st.Addr == ssa.Value(g) {
+						// the container stored into the table variable: its constant-key entries
+						if refs := st.Val.Referrers(); refs != nil {
+							for _, r := range *refs {
+								if mu, ok := r.(*ssa.MapUpdate); ok && mu.Map == st.Val {
+									if k, ok := constInt(mu.Key); ok {
+										if f := fnOf(mu.Value); f != nil {
+											tbl[k] = f
+										}
+									}
+								}
+							}
+						}
+					}
+					if ia, ok := st.Addr.(*ssa.IndexAddr); ok && ia.X == ssa.Value(g) {
+						if k, ok := constInt(ia.Index); ok {
+							if f := fnOf(st.Val); f != nil {
+								tbl[k] = f
+							}
+						}
+					}
+				}
+			}
+		}
+		if len(tbl) > 0 {
+			return tbl
+		}
+	}
+	return nil
+}
+
+// kindTable: the kind table consulted by a dynamic call in what `from` reaches, if any.
+func (c *Ctx) kindTable(from *ssa.Function) map[int64]*ssa.Function {
+	var fns []*ssa.Function
+	for f := range c.staticReach(from) {
+		fns = append(fns, f)
+	}
+	sort.Slice(fns, func(i, j int) bool { return c.fname(fns[i]) < c.fname(fns[j]) })
+	for _, f := range fns {
+		var tbl map[int64]*ssa.Function
+		allCalls(f, func(ci ssa.CallInstruction) {
+			if tbl == nil && !ci.Common().IsInvoke() && ci.Common().StaticCallee() == nil {
+				tbl = c.kindTableOf(ci.Common().Value)
+			}
+		})
+		if tbl != nil {
+			return tbl
+		}
+	}
+	return nil
 }
 
 // kindGuarded reports whether instruction in runs only where some reflect.Kind was found equal to reflect.<kind>.
@@ -725,13 +893,18 @@ func ruleCMP5(c *Ctx) []Ob {
 			continue
 		}
 		es := kindEdges[kv]
-		if len(es) == 0 {
+		tableFn := c.kindTable(norm)[kv]
+		if len(es) == 0 && tableFn == nil {
 			o.add(VIOLATED, key, relPath(c, kindFn.Pos()), "Normalize (%s) has no case for reflect.%s: such values are rejected or fall through un-normalised", c.fname(kindFn), kn)
 			continue
 		}
 		found := false
-		for _, ret := range returnsOf(kindFn) {
-			hit := false
+		caseFn := kindFn
+		if len(es) == 0 {
+			caseFn = tableFn // the dispatch is a table from kinds to functions: the entry's returns are the case
+		}
+		for _, ret := range returnsOf(caseFn) {
+			hit := caseFn == tableFn && len(es) == 0
 			for _, e := range es {
 				if e.to() == ret.Block() || e.to().Dominates(ret.Block()) {
 					hit = true
@@ -840,8 +1013,12 @@ func ruleCMP5(c *Ctx) []Ob {
 
 // ---------------------------------------------------------------- COD1 / COD2
 
+// staticReach: the library functions reachable from `from` through static calls, closures,
+// function values used as operands, and function tables kept in package-level variables
+// (a function that loads such a variable may call whatever was stored into it).
 func (c *Ctx) staticReach(from *ssa.Function) map[*ssa.Function]bool {
 	seen := map[*ssa.Function]bool{}
+	tables := c.globalFuncTables()
 	var walk func(f *ssa.Function)
 	walk = func(f *ssa.Function) {
 		if f == nil || seen[f] || !c.IsLib(f) {
@@ -856,9 +1033,115 @@ func (c *Ctx) staticReach(from *ssa.Function) map[*ssa.Function]bool {
 		for _, a := range f.AnonFuncs {
 			walk(a)
 		}
+		for _, b := range f.Blocks {
+			for _, in := range b.Instrs {
+				for _, op := range in.Operands(nil) {
+					if op == nil || *op == nil {
+						continue
+					}
+					switch x := (*op).(type) {
+					case *ssa.Function:
+						walk(c.declared(x))
+					case *ssa.Global:
+						for _, g := range tables[x] {
+							walk(g)
+						}
+					}
+				}
+			}
+		}
 	}
 	walk(from)
 	return seen
+}
+
+// globalFuncTables: for each package-level variable of the library, the functions stored
+// into it (directly, or as entries of the map / slice / array / struct stored into it).
+func (c *Ctx) globalFuncTables() map[*ssa.Global][]*ssa.Function {
+	if c.funcTables != nil {
+		return c.funcTables
+	}
+	out := map[*ssa.Global][]*ssa.Function{}
+	var funcsIn func(v ssa.Value, depth int, seen map[ssa.Value]bool) []*ssa.Function
+	funcsIn = func(v ssa.Value, depth int, seen map[ssa.Value]bool) []*ssa.Function {
+		if v == nil || seen[v] || depth > 6 {
+			return nil
+		}
+		seen[v] = true
+		var fs []*ssa.Function
+		switch x := v.(type) {
+		case *ssa.Function:
+			return []*ssa.Function{c.declared(x)}
+		case *ssa.MakeClosure:
+			if f, ok := x.Fn.(*ssa.Function); ok {
+				return []*ssa.Function{f}
+			}
+		case *ssa.MakeInterface:
+			return funcsIn(x.X, depth+1, seen)
+		case *ssa.ChangeType:
+			return funcsIn(x.X, depth+1, seen)
+		case *ssa.Slice:
+			return funcsIn(x.X, depth+1, seen)
+		case *ssa.Phi:
+			for _, e := range x.Edges {
+				fs = append(fs, funcsIn(e, depth+1, seen)...)
+			}
+			return fs
+		case *ssa.UnOp:
+			if x.Op == token.MUL {
+				return funcsIn(x.X, depth+1, seen)
+			}
+		}
+		// a container built here: whatever is stored into it
+		if refs := v.Referrers(); refs != nil {
+			for _, r := range *refs {
+				switch y := r.(type) {
+				case *ssa.MapUpdate:
+					if y.Map == v {
+						fs = append(fs, funcsIn(y.Value, depth+1, seen)...)
+					}
+				case *ssa.Store:
+					if y.Addr == v {
+						fs = append(fs, funcsIn(y.Val, depth+1, seen)...)
+					}
+				case *ssa.IndexAddr:
+					if y.X == v {
+						fs = append(fs, funcsIn(y, depth+1, seen)...)
+					}
+				case *ssa.FieldAddr:
+					if y.X == v {
+						fs = append(fs, funcsIn(y, depth+1, seen)...)
+					}
+				}
+			}
+		}
+		return fs
+	}
+	for _, fn := range c.LibFuncs {
+		for _, b := range fn.Blocks {
+			for _, in := range b.Instrs {
+				st, ok := in.(*ssa.Store)
+				if !ok {
+					continue
+				}
+				var g *ssa.Global
+				switch a := st.Addr.(type) {
+				case *ssa.Global:
+					g = a
+				case *ssa.IndexAddr:
+					g, _ = a.X.(*ssa.Global)
+				case *ssa.FieldAddr:
+					g, _ = a.X.(*ssa.Global)
+				}
+				if g == nil {
+					continue
+				}
+				out[g] = append(out[g], funcsIn(st.Val, 0, map[ssa.Value]bool{})...)
+			}
+		}
+	}
+	c.funcTables = out
+	return out
 }
 
 func ruleCOD1(c *Ctx) []Ob {
@@ -1045,7 +1328,55 @@ func ruleCOD1(c *Ctx) []Ob {
 						rec = true
 					}
 				})
+				// ... and on every path: no return under the ok edge that is taken before the loop over
+				// the elements (a fast path deciding from a look at the elements that nothing has to be
+				// done has to be as complete as the transformer itself; only emptiness is accepted)
+				bypass := ""
 				if rec {
+					var headers []*ssa.BasicBlock
+					allCalls(f, func(call ssa.CallInstruction) {
+						if staticCallee(call) == f && guardedBy(f, call.Block(), okEdges) && c.inLoop(call.Block()) {
+							if h, _ := c.innermostLoop(call.Block()); h != nil {
+								headers = append(headers, h)
+							}
+						}
+					})
+					emptyEdges := guardEdges(f, func(cond ssa.Value, branch bool) bool {
+						b, ok := cond.(*ssa.BinOp)
+						if !ok {
+							return false
+						}
+						cl, ok := b.X.(*ssa.Call)
+						if !ok {
+							return false
+						}
+						bi, ok := cl.Call.Value.(*ssa.Builtin)
+						if !ok || bi.Name() != "len" {
+							return false
+						}
+						if k, ok := constInt(b.Y); !ok || k != 0 {
+							return false
+						}
+						return (b.Op == token.EQL && branch) || (b.Op == token.NEQ && !branch) || (b.Op == token.GTR && !branch)
+					})
+					for _, ret := range returnsOf(f) {
+						if !guardedBy(f, ret.Block(), okEdges) || len(headers) == 0 {
+							continue
+						}
+						behind := false
+						for _, h := range headers {
+							if h.Dominates(ret.Block()) {
+								behind = true
+							}
+						}
+						if !behind && !guardedBy(f, ret.Block(), emptyEdges) {
+							bypass = relPath(c, ret.Pos())
+						}
+					}
+				}
+				if bypass != "" {
+					o.add(VIOLATED, key, relPath(c, f.Pos()), "%s can return at %s, inside its %s branch, without having gone through the elements: a time reachable only through the elements this shortcut does not look at (an array nested in an array) is stored with msgpack's native timestamp (zone offset lost) or read back still wrapped", c.fname(f), bypass, ct.Name)
+				} else if rec {
 					o.add(OK, key, relPath(c, f.Pos()), "elements of %s values are transformed recursively", ct.Name)
 				} else {
 					o.add(VIOLATED, key, relPath(c, f.Pos()), "the %s branch of %s does not recurse into its elements: a time inside an object/array nested in such a value is stored with msgpack's native timestamp (zone offset lost) or read back still wrapped", ct.Name, c.fname(f))
@@ -1303,8 +1634,39 @@ func ruleCMP6(c *Ctx) []Ob {
 	// the writer's side only: what Normalize can reach (the reader's rename-back walk also
 	// looks at Anonymous, but stores names for encoding/json, not document fields)
 	writer := c.staticReach(c.lookupFunc("internal", "Normalize"))
+	// the reader's flattening predicate: a library function (reflect.StructField) bool reading
+	// Anonymous that the way back (Convert) consults. Writer and reader must flatten the same
+	// fields, or what went in at the level of the struct is not looked for there on the way back.
+	var pred *ssa.Function
+	if conv := c.lookupFunc("internal", "Convert"); conv != nil {
+		var cands []*ssa.Function
+		for f := range c.staticReach(conv) {
+			if c.pkgRel(f) != "internal" || f.Parent() != nil || len(f.Params) != 1 || f.Signature.Results().Len() != 1 || !namedIs(f.Params[0].Type(), "reflect", "StructField") {
+				continue
+			}
+			if bt, ok := f.Signature.Results().At(0).Type().Underlying().(*types.Basic); !ok || bt.Kind() != types.Bool {
+				continue
+			}
+			reads := false
+			for _, b := range f.Blocks {
+				for _, in := range b.Instrs {
+					if structFieldRead(in, "Anonymous") {
+						reads = true
+					}
+				}
+			}
+			if reads {
+				cands = append(cands, f)
+			}
+		}
+		sort.Slice(cands, func(i, j int) bool { return c.fname(cands[i]) < c.fname(cands[j]) })
+		if len(cands) > 0 {
+			pred = cands[0]
+		}
+	}
+	nflat := map[*ssa.Function]int{}
 	for _, fn := range c.LibFuncs {
-		if c.pkgRel(fn) != "internal" || !writer[rootFunc(fn)] {
+		if c.pkgRel(fn) != "internal" || !writer[rootFunc(fn)] || fn == pred {
 			continue
 		}
 		// the struct normaliser: loads reflect.StructField.Anonymous
@@ -1316,9 +1678,13 @@ func ruleCMP6(c *Ctx) []Ob {
 			}
 			return false
 		}
+		isPred := func(v ssa.Value) bool {
+			call, ok := v.(*ssa.Call)
+			return ok && pred != nil && staticCallee(call) != nil && c.declared(staticCallee(call)) == pred
+		}
 		uses := false
 		ifEdges(fn, func(cond ssa.Value, e edge) {
-			if isAnon(cond) {
+			if isAnon(cond) || isPred(cond) {
 				uses = true
 			}
 		})
@@ -1328,10 +1694,10 @@ func ruleCMP6(c *Ctx) []Ob {
 		found = true
 		mapT := types.NewMap(types.Typ[types.String], types.NewInterfaceType(nil, nil))
 		allowed := guardEdges(fn, func(cond ssa.Value, branch bool) bool {
-			if isAnon(cond) {
+			if isAnon(cond) || isPred(cond) {
 				return !branch
 			}
-			if u, ok := cond.(*ssa.UnOp); ok && u.Op == token.NOT && isAnon(u.X) {
+			if u, ok := cond.(*ssa.UnOp); ok && u.Op == token.NOT && (isAnon(u.X) || isPred(u.X)) {
 				return branch
 			}
 			if ex, ok := cond.(*ssa.Extract); ok && ex.Index == 1 {
@@ -1341,11 +1707,27 @@ func ruleCMP6(c *Ctx) []Ob {
 			}
 			return false
 		})
+		flattenOK := guardEdges(fn, func(cond ssa.Value, branch bool) bool {
+			if isPred(cond) {
+				return branch
+			}
+			if u, ok := cond.(*ssa.UnOp); ok && u.Op == token.NOT && isPred(u.X) {
+				return !branch
+			}
+			return false
+		})
+		anonTrue := guardEdges(fn, func(cond ssa.Value, branch bool) bool { return isAnon(cond) && branch })
 		for _, b := range fn.Blocks {
 			for _, in := range b.Instrs {
 				mu, ok := in.(*ssa.MapUpdate)
 				if !ok {
 					continue
+				}
+				// bookkeeping maps (map[string]bool) are not the document
+				if mt, ok := mu.Map.Type().Underlying().(*types.Map); ok {
+					if bt, ok := mt.Elem().Underlying().(*types.Basic); ok && bt.Kind() == types.Bool {
+						continue
+					}
 				}
 				// keys coming from ranging over the embedded object's map are the flattening itself
 				fromRange := false
@@ -1358,11 +1740,56 @@ func ruleCMP6(c *Ctx) []Ob {
 				}
 				key := c.fname(fn) + "/store under the field's own name"
 				if fromRange {
-					o.add(OK, c.fname(fn)+"/flattening store", relPath(c, mu.Pos()), "keys of the embedded object are merged into the parent")
+					nflat[fn]++
+					fkey := c.fname(fn) + "/flattening store"
+					if nflat[fn] > 1 {
+						fkey += fmt.Sprintf(" #%d", nflat[fn])
+					}
+					// a promoted field must not replace a field of the struct itself: the merge is behind
+					// a lookup of the same key (in the document being built or in a set of own names)
+					miss := guardEdges(fn, func(cond ssa.Value, branch bool) bool {
+						neg := false
+						for {
+							if u, ok := cond.(*ssa.UnOp); ok && u.Op == token.NOT {
+								cond, neg = u.X, !neg
+								continue
+							}
+							break
+						}
+						var lk *ssa.Lookup
+						switch x := cond.(type) {
+						case *ssa.Lookup:
+							lk = x
+						case *ssa.Extract:
+							if l, ok := x.Tuple.(*ssa.Lookup); ok && x.Index == 1 {
+								lk = l
+							}
+						}
+						if lk == nil || !(lk.Index == mu.Key || sameOrigin(lk.Index, mu.Key)) {
+							return false
+						}
+						return branch == neg // the branch on which the key was NOT found
+					})
+					hkey := strings.Replace(fkey, "/flattening store", "/promoted fields do not hide the struct's own", 1)
+					if guardedBy(fn, b, miss) {
+						o.add(OK, hkey, relPath(c, mu.Pos()), "a promoted field is merged only if the struct itself has no field of that name")
+					} else {
+						o.add(VIOLATED, hkey, relPath(c, mu.Pos()), "the fields of an embedded struct are merged into the parent unconditionally: with struct{ ID string; Base } where Base also has ID, the embedded field (declared later) replaces the struct's own, contrary to Go's and encoding/json's shadowing rule - {ID: \"outer\"} becomes the document {ID: \"\"} and comes back as ID = \"\"")
+					}
+					switch {
+					case pred == nil:
+						o.add(OK, fkey, relPath(c, mu.Pos()), "keys of the embedded object are merged into the parent")
+					case guardedBy(fn, b, flattenOK):
+						o.add(OK, fkey, relPath(c, mu.Pos()), "keys of the embedded object are merged into the parent exactly when %s, which the way back consults, says the field is flattened", c.fname(pred))
+					case guardedBy(fn, b, anonTrue) && c.kindGuarded(mu, "Struct"):
+						o.add(OK, fkey, relPath(c, mu.Pos()), "keys of an embedded struct (Anonymous and of kind Struct) are merged into the parent")
+					default:
+						o.add(VIOLATED, fkey, relPath(c, mu.Pos()), "the fields of an embedded field are merged into the parent without %s, by which the way back (Unmarshal) decides where to look for them, having been asked: an embedded field of a named map type is flattened on the way in, but looked for under its type name on the way back, and its entries are silently lost", c.fname(pred))
+					}
 					continue
 				}
 				if guardedBy(fn, b, allowed) {
-					o.add(OK, key, relPath(c, mu.Pos()), "reached only for a non-embedded field, or an embedded field that is not an object")
+					o.add(OK, key, relPath(c, mu.Pos()), "reached only for a non-embedded field, an embedded field that is not an object, or one the reader's predicate does not flatten")
 				} else {
 					o.add(VIOLATED, key, relPath(c, mu.Pos()), "a field can be stored under its own name although it is embedded and normalises to an object (the path is not decided by Anonymous and map-ness alone): embedded structs reached through a pointer / of some kinds are no longer flattened, and Unmarshal (encoding/json flattens them) no longer round-trips")
 				}
@@ -2056,6 +2483,217 @@ func ruleCOD4(c *Ctx) []Ob {
 	}
 	if n == 0 {
 		o.add(OK, "Convert", relPath(c, conv.Pos()), "the reader does not pass document values through encoding/json.Marshal")
+	}
+	return o.list
+}
+
+// ---------------------------------------------------------------- EMPTY3
+
+// EMPTY3: a byte slice handed through by the normaliser is never nil. Every other
+// nil slice is normalised to an empty generic slice; a nil []byte that is passed
+// through ((reflect.Value).Bytes() of a nil slice is nil) is written by msgpack as
+// a null and read back as an untyped nil: the field changes type (and rank in the
+// order) once the document has been stored. The value of Bytes() may be returned
+// only where the slice is known not to be nil.
+func ruleEMPTY3(c *Ctx) []Ob {
+	o := newObs(c, "EMPTY3")
+	norm := c.lookupFunc("internal", "Normalize")
+	if norm == nil {
+		o.add(UNDECIDED, "Normalize", "-", "internal.Normalize not found")
+		return o.list
+	}
+	n := 0
+	var fns []*ssa.Function
+	for f := range c.staticReach(norm) {
+		if c.pkgRel(f) == "internal" {
+			fns = append(fns, f)
+		}
+	}
+	sort.Slice(fns, func(i, j int) bool { return c.fname(fns[i]) < c.fname(fns[j]) })
+	for _, fn := range fns {
+		allCalls(fn, func(ci ssa.CallInstruction) {
+			call, ok := ci.(*ssa.Call)
+			if !ok || calleeFullName(call) != "(reflect.Value).Bytes" {
+				return
+			}
+			recv := call.Call.Args[0]
+			// edges on which the reflected slice / the bytes are known not to be nil
+			safe := nonNilEdges(fn, sameValue(call))
+			safe = append(safe, guardEdges(fn, func(cond ssa.Value, branch bool) bool {
+				if ic, ok := cond.(*ssa.Call); ok && calleeFullName(ic) == "(reflect.Value).IsNil" && (ic.Call.Args[0] == recv || sameOrigin(ic.Call.Args[0], recv)) {
+					return !branch
+				}
+				if bo, ok := cond.(*ssa.BinOp); ok {
+					if lc, ok := bo.X.(*ssa.Call); ok {
+						full := calleeFullName(lc)
+						isLen := full == "(reflect.Value).Len"
+						if b, isB := lc.Call.Value.(*ssa.Builtin); isB && b.Name() == "len" {
+							isLen = true
+						}
+						if k, isK := constInt(bo.Y); isLen && isK && k == 0 {
+							return (bo.Op == token.GTR && branch) || (bo.Op == token.NEQ && branch) || (bo.Op == token.EQL && !branch)
+						}
+					}
+				}
+				return false
+			})...)
+			var okAt func(v ssa.Value, at *ssa.BasicBlock, via *edge, depth int) bool
+			okAt = func(v ssa.Value, at *ssa.BasicBlock, via *edge, depth int) bool {
+				if depth > 5 {
+					return false
+				}
+				switch x := v.(type) {
+				case *ssa.MakeInterface:
+					return okAt(x.X, at, via, depth+1)
+				case *ssa.Phi:
+					for i, e := range x.Edges {
+						p := x.Block().Preds[i]
+						var viaE *edge
+						if len(p.Instrs) > 0 {
+							if _, isIf := p.Instrs[len(p.Instrs)-1].(*ssa.If); isIf {
+								viaE = &edge{p, p.Succs[0] == x.Block()}
+							}
+						}
+						if !okAt(e, p, viaE, depth+1) {
+							return false
+						}
+					}
+					return true
+				}
+				if v != ssa.Value(call) {
+					return true // another value (a fresh empty slice)
+				}
+				if via != nil {
+					for _, e := range safe {
+						if e == *via {
+							return true
+						}
+					}
+				}
+				return guardedBy(fn, at, safe) || guardedBy(fn, call.Block(), safe)
+			}
+			for _, ret := range returnsOf(fn) {
+				rv, has := returnedValue(ret, 0)
+				if !has {
+					continue
+				}
+				reaches := false
+				var walk func(v ssa.Value, d int)
+				walk = func(v ssa.Value, d int) {
+					if d > 5 || v == nil {
+						return
+					}
+					if v == ssa.Value(call) {
+						reaches = true
+					}
+					switch x := v.(type) {
+					case *ssa.MakeInterface:
+						walk(x.X, d+1)
+					case *ssa.Phi:
+						for _, e := range x.Edges {
+							walk(e, d+1)
+						}
+					}
+				}
+				walk(rv, 0)
+				if !reaches {
+					continue
+				}
+				n++
+				key := c.fname(fn) + "/bytes handed through are not nil"
+				if okAt(rv, ret.Block(), nil, 0) {
+					o.add(OK, key, relPath(c, ret.Pos()), "(reflect.Value).Bytes() is returned only where the slice is known not to be nil")
+				} else {
+					o.add(VIOLATED, key, relPath(c, ret.Pos()), "the result of (reflect.Value).Bytes() is returned as the normal form without a nil test: a nil []byte (an unset Data []byte field) stays nil, msgpack stores it as a null, and the document read back holds an untyped nil where a []byte was written - while every other nil slice is normalised to an empty one")
+				}
+			}
+		})
+	}
+	if n == 0 {
+		o.add(OK, "byte pass-through", "-", "the normaliser hands no (reflect.Value).Bytes() through")
+	}
+	return o.list
+}
+
+// ---------------------------------------------------------------- CMP11
+
+// CMP11: numbers compare by value across int64 / uint64 / float64: on the way into a
+// comparison of floats no integer is converted to float64 (util.ToFloat64, float64(i)),
+// which rounds it beyond 2^53 - int64(2^53+1) would equal float64(2^53), Eq(2^53.0)
+// would select the document holding 2^53+1, and the order would stop being transitive
+// (2^53+1 > 2^53 as integers, both "equal" to the float 2^53). A conversion whose result
+// is an operand of the float comparator or of a float ordering test is reported; a
+// conversion used in arithmetic on the way (the exact integral part of a float that lies
+// within the integer's range) is not.
+func ruleCMP11(c *Ctx) []Ob {
+	o := newObs(c, "CMP11")
+	toF := c.lookupFunc("util", "ToFloat64")
+	isFloatCmp := func(g *ssa.Function) bool {
+		if g == nil || len(g.Params) != 2 || g.Signature.Results().Len() != 1 {
+			return false
+		}
+		for _, p := range g.Params {
+			if b, ok := p.Type().Underlying().(*types.Basic); !ok || b.Kind() != types.Float64 {
+				return false
+			}
+		}
+		return isIntType(g.Signature.Results().At(0).Type())
+	}
+	n := 0
+	var fns []*ssa.Function
+	for f := range c.comparatorFuncs() {
+		fns = append(fns, f)
+	}
+	sort.Slice(fns, func(i, j int) bool { return c.fname(fns[i]) < c.fname(fns[j]) })
+	for _, fn := range fns {
+		k := 0
+		for _, b := range fn.Blocks {
+			for _, in := range b.Instrs {
+				var conv ssa.Value
+				what := ""
+				switch x := in.(type) {
+				case *ssa.Call:
+					if g := staticCallee(x); g != nil && toF != nil && c.declared(g) == toF {
+						conv, what = x, "util.ToFloat64"
+					}
+				case *ssa.Convert:
+					from, okF := x.X.Type().Underlying().(*types.Basic)
+					to, okT := x.Type().Underlying().(*types.Basic)
+					if okF && okT && from.Info()&types.IsInteger != 0 && to.Kind() == types.Float64 {
+						conv, what = x, "float64("+from.Name()+")"
+					}
+				}
+				if conv == nil {
+					continue
+				}
+				// direct use as an operand of a float comparison
+				direct := ""
+				for _, r := range realReferrers(conv) {
+					switch y := r.(type) {
+					case *ssa.Call:
+						if g := staticCallee(y); g != nil && isFloatCmp(c.declared(g)) {
+							direct = "an argument of " + c.fname(c.declared(g))
+						}
+					case *ssa.BinOp:
+						switch y.Op {
+						case token.LSS, token.GTR, token.LEQ, token.GEQ, token.EQL, token.NEQ:
+							direct = "an operand of " + y.Op.String()
+						}
+					}
+				}
+				n++
+				k++
+				key := fmt.Sprintf("%s/integer to float conversion #%d", c.fname(fn), k)
+				if direct == "" {
+					o.add(OK, key, relPath(c, in.Pos()), "%s is not compared directly (arithmetic on an exact integral part)", what)
+				} else {
+					o.add(VIOLATED, key, relPath(c, in.Pos()), "the result of %s is %s: an integer beyond 2^53 is rounded before it is compared with a float, so int64(9007199254740993) equals float64(9007199254740992) - Eq(9007199254740992.0) selects the document holding ...993, Gt does not, and the order is no longer transitive", what, direct)
+				}
+			}
+		}
+	}
+	if n == 0 {
+		o.add(OK, "comparator", "-", "no integer is converted to float64 in the comparator")
 	}
 	return o.list
 }
